@@ -62,11 +62,7 @@ theorem nil_mem_pow (L : Language ℕ) (k : ℕ) : [] ∈ L ^ k ↔ k = 0 ∨ []
 theorem pow_le_pow_of_le {L M : Language ℕ} (h : L ≤ M) (k : ℕ) : L ^ k ≤ M ^ k := by
   induction k with
   | zero => simp
-  | succ k ih =>
-    intro w hw
-    rw [pow_succ, Language.mem_mul] at hw ⊢
-    obtain ⟨a, ha, b, hb, rfl⟩ := hw
-    exact ⟨a, ih ha, b, h hb, rfl⟩
+  | succ k ih => rw [pow_succ, pow_succ]; exact mul_le_mul' ih h
 
 theorem loopLang_mono {L M : Language ℕ} (h : L ≤ M) (r : LoopRange) :
     loopLang L r ≤ loopLang M r := by
@@ -103,8 +99,9 @@ theorem pow_le_allStrings {L : Language ℕ} (hL : L ≤ allStrings) (k : ℕ) :
   induction k with
   | zero =>
     intro w hw
-    rw [pow_zero, Language.mem_one] at hw
-    subst hw; exact WFs_nil
+    rw [pow_zero] at hw
+    have hw' : w = [] := (Language.mem_one w).1 hw
+    subst hw'; exact WFs_nil
   | succ k ih => rw [pow_succ]; exact mul_le_allStrings ih hL
 
 theorem loopLang_le_allStrings {L : Language ℕ} (hL : L ≤ allStrings) (r : LoopRange) :
@@ -261,19 +258,21 @@ theorem rangeOK_point (k : ℕ) : RangeOK (LoopRange.point k) := Nat.le_refl k
 /-- `R^[i,j] · R = R^[i+1, j+1]` -/
 theorem loopLang_mul_self (L : Language ℕ) (r : LoopRange) (hr : RangeOK r) :
     loopLang L r * L = loopLang L (r.addPointN 1) := by
-  conv_lhs => rw [← loopLang_one L]
-  exact loopLang_mul L r _ hr (rangeOK_point 1)
+  have h := loopLang_mul L r (LoopRange.point 1) hr (rangeOK_point 1)
+  rw [loopLang_one] at h
+  exact h
 
 /-- `R · R^[i,j] = R^[i+1, j+1]` -/
 theorem mul_loopLang (L : Language ℕ) (r : LoopRange) (hr : RangeOK r) :
     L * loopLang L r = loopLang L (r.addPointN 1) := by
-  conv_lhs => rw [← loopLang_one L]
-  apply loopLang_mul_of_sum
-  intro k
-  rw [LoopRange.addPointN, mem_addN r _ hr (rangeOK_point 1)]
-  constructor
-  · rintro ⟨i, j, hi, hj, rfl⟩; exact ⟨j, i, hj, hi, Nat.add_comm _ _⟩
-  · rintro ⟨i, j, hi, hj, rfl⟩; exact ⟨j, i, hj, hi, Nat.add_comm _ _⟩
+  have h := loopLang_mul_of_sum L (LoopRange.point 1) r (r.addPointN 1) (by
+    intro k
+    rw [LoopRange.addPointN, mem_addN r _ hr (rangeOK_point 1)]
+    constructor
+    · rintro ⟨i, j, hi, hj, rfl⟩; exact ⟨j, i, hj, hi, Nat.add_comm _ _⟩
+    · rintro ⟨i, j, hi, hj, rfl⟩; exact ⟨j, i, hj, hi, Nat.add_comm _ _⟩)
+  rw [loopLang_one] at h
+  exact h
 
 /-- `R · R = R^2` -/
 theorem mul_self_eq_loopLang (L : Language ℕ) : L * L = loopLang L (LoopRange.point 2) := by
@@ -355,10 +354,11 @@ theorem loopLang_pow (L : Language ℕ) (xr : LoopRange) (hxr : RangeOK xr) (y :
   | none =>
     cases y with
     | zero =>
-      simp only [pow_zero, kfoldN]
+      rw [pow_zero]
       constructor
       · intro hw; exact ⟨0, Or.inl ⟨rfl, rfl⟩, by simpa using hw⟩
-      · rintro ⟨n, (⟨_, rfl⟩ | ⟨h, _⟩), hw⟩
+      · rintro ⟨n, hk, hw⟩
+        rcases hk with ⟨_, rfl⟩ | ⟨h, _⟩
         · simpa using hw
         · omega
     | succ y =>
@@ -426,7 +426,9 @@ theorem mem_mulN_of_exact (xr r : LoopRange) (hxr : RangeOK xr) (hr : RangeOK r)
         -- inner range `[a, ∞)`
         have e : (LoopRange.mulN ⟨a, none⟩ ⟨c, sc⟩) = ⟨a * c, none⟩ := by
           have h1 : (LoopRange.mk c sc).isZero = false := by simpa using hrz
-          cases sc <;> simp [LoopRange.mulN, h1, LoopRange.isZero, LoopRange.infinite]
+          have h2 : (LoopRange.mk a none).isZero = false := by simpa using hxz
+          simp only [LoopRange.mulN, h1, h2]
+          cases sc <;> rfl
         rw [e, mem_inf]
         constructor
         · rintro ⟨y, hy, hk⟩
@@ -438,7 +440,9 @@ theorem mem_mulN_of_exact (xr r : LoopRange) (hxr : RangeOK xr) (hr : RangeOK r)
           · exact Nat.le_trans hac h
         · intro hn
           by_cases hc0 : 0 < c
-          · exact ⟨c, mem_start _ hr, Or.inr ⟨hc0, by rw [Nat.mul_comm c a]; exact hn⟩⟩
+          · exact ⟨c, mem_start _ hr, Or.inr ⟨hc0, by
+              show c * a ≤ n
+              rw [Nat.mul_comm c a]; exact hn⟩⟩
           · have hc0' : c = 0 := by omega
             subst hc0'
             -- not a point (else it would be `[0,0]`), so the test gives `a ≤ 1`
@@ -458,7 +462,7 @@ theorem mem_mulN_of_exact (xr r : LoopRange) (hxr : RangeOK xr) (hr : RangeOK r)
                 | some d =>
                   have hd : d ≠ 0 := fun h => hrz2 ⟨rfl, by rw [h]⟩
                   exact (mem_fin 0 d 1).2 ⟨Nat.zero_le _, by omega⟩
-              exact ⟨1, h1s, Or.inr ⟨Nat.one_pos, by omega⟩⟩
+              exact ⟨1, h1s, Or.inr ⟨Nat.one_pos, by show 1 * a ≤ n; omega⟩⟩
       | some b =>
         -- inner range `[a, b]`, `b > 0`
         have hab : a ≤ b := hxr
